@@ -40,6 +40,9 @@ def liveStep (timeout cap : Nat) (s : LiveSt) (op : String) : LiveSt × String :
       -- the kernel answers an echo to 127.0.0.1 at once
       (liveDeliver cap s e s!"0/0/{id}/{seq}", "-")
     | _, _, _, _ => (s, "bad-op")
+  | ["bad", _c, _id, _seq, _h] =>
+    -- a request the kernel refused to send (TTL 0): the client is told, no waiter is registered
+    (s, "-")
   | ["inj", id, seq, h] =>
     match id.toNat?, seq.toNat?, parseHex h with
     | some id, some seq, some d => (liveDeliver cap s ⟨0, id, seq, d⟩ s!"0/0/{id}/{seq}", "-")
